@@ -45,7 +45,7 @@ COMPONENTS = {
     'stub': ['event loop -> SimLoop', 'communicator thread -> the environment completing futures between loop handles'],
 }
 ASSUMPTIONS = ['a coroutine cancelled under create_task is outside the statement and not generated']
-EXPECTED_COUNTERS = ['adapter:plum_kiwi', 'adapter:kiwi', 'adapter:rpc_reply', 'adapter:create_task', 'adapter:action',
+EXPECTED_COUNTERS = ['create_task:from_communicator_thread', 'loop_comm:loop_thread_runs_first', 'adapter:loop_comm', 'adapter:plum_kiwi', 'adapter:kiwi', 'adapter:rpc_reply', 'adapter:create_task', 'adapter:action',
                      'probe:inner_before_outer', 'outcome:value', 'outcome:exc', 'outcome:cancel', 'depth:1', 'depth:2',
                      'depth:3', 'depth:4', 'futures:loop_created', 'futures:plumpy_class']
 _sys_cache = {}
